@@ -181,3 +181,28 @@ func zzT12CCMFormatOpen() {
 	zzsymAssert(zzsymEqBytes(got, m), "ccm_format/plaintext_rfc3610")
 	zzsymCover("accepted")
 }
+
+// ccm_format (seal) for a record beyond 255 key-stream blocks: a 4113-byte message (258 blocks: the counter of
+// S_256 needs a carry out of its last octet), fixed filler with arbitrary bytes at the start, in block 256, in block
+// 257 and at the end; arbitrary key and nonce, 13 bytes of additional data, 16-byte tag. Compared with RFC 3610 on
+// the sampled ciphertext octets (first block, blocks 255..258) and the tag.
+//
+//symgo:entry covers=long_message
+func zzT12CCMFormatSealLong() {
+	key := zzsymBytes("key", 16)
+	nonce := zzsymBytes("nonce", 12)
+	aad := zzsymBytes("aad", 13)
+	aead, err := NewCCM(&zzT12Block{key: key}, 16, 12)
+	zzsymAssert(err == nil, "ccm_format/constructor_ok")
+	const mLen = 257*16 + 1
+	m := make([]byte, mLen)
+	for _, p := range []int{0, 255*16 + 3, 256*16 + 5, mLen - 1} {
+		m[p] = zzsymU8("m_byte")
+	}
+	got := aead.Seal(nil, nonce, m, aad)
+	want := zzT12RefSeal(key, nonce, m, aad, 16)
+	zzsymAssert(len(got) == mLen+16, "ccm_format/sealed_length")
+	zzsymAssert(zzsymEqBytes(got[:16], want[:16]), "ccm_format/long_ciphertext_first_block")
+	zzsymAssert(zzsymEqBytes(got[254*16:], want[254*16:]), "ccm_format/long_ciphertext_and_tag_past_block_255")
+	zzsymCover("long_message")
+}
